@@ -33,6 +33,11 @@ class Register(Operand):
     @property
     def cstruct(self):
         self._assert_types()
+        if not (0 <= self.index < 2**encoding.REG_INDEX_BITS):
+            raise ValueError(
+                f"register {self} cannot be encoded: "
+                f"index should be in the range [0, {2**encoding.REG_INDEX_BITS - 1}]"
+            )
         return encoding.Register(self.name.value, self.index)
 
     def __bytes__(self):
@@ -57,6 +62,7 @@ class Address(Operand):
     @property
     def cstruct(self):
         self._assert_types()
+        encoding.check_int_fits(self.address, encoding.ADDRESS, "address")
         return encoding.Address(self.address)
 
     def __bytes__(self):
